@@ -83,7 +83,7 @@ def full_mesh(nodes: list[Node], overlay_index: int = 0, flags_of: Any = None) -
 
 
 def tunnel_nodes(net: SimNet, n: int, flags: Any = None, hidden: bool = False, first_idx: int = 0,
-                 **settings: Any) -> list[Node]:
+                 tunnel_endpoint_at: tuple = (), **settings: Any) -> list[Node]:
     """
     ``n`` tunnel nodes, fully meshed as candidates. ``flags``: callable(i) -> set of peer flags (default: all relay
     + both exit flags + speed test).
@@ -94,7 +94,7 @@ def tunnel_nodes(net: SimNet, n: int, flags: Any = None, hidden: bool = False, f
     allf = {PEER_FLAG_RELAY, PEER_FLAG_EXIT_BT, PEER_FLAG_EXIT_IPV8, PEER_FLAG_SPEED_TEST}
     nodes = []
     for i in range(n):
-        node = Node(net, first_idx + i)
+        node = Node(net, first_idx + i, tunnel_endpoint=i in tunnel_endpoint_at)
         fl = set(flags(i)) if flags is not None else set(allf)
         st = dict(settings)
         cls = TunnelCommunity
